@@ -645,6 +645,13 @@ class Run:
         for sec in img:
             secs.append((sec.uid, [spsdk_cmd_tuple(c) for c in sec]))
         hdr = {"product_version": str(img.header.product_version), "component_version": str(img.header.component_version), "build_number": img.header.build_number}
+        # further header content a caller of the parser reads: time stamp, flags, and the certificate block of a signed file
+        hdr["timestamp"] = str(getattr(img.header, "timestamp", None))
+        hdr["flags"] = getattr(img.header, "flags", None)
+        cbk = getattr(img, "cert_block", None)
+        if cbk is not None:
+            hdr["cert_block_rkth"] = bytes(cbk.rkth).hex()
+            hdr["cert_block_certs"] = [hashlib.sha256(c.export()).hexdigest()[:16] for c in cbk.certificates]
         return hdr, secs
 
     def compare_content(self, got: list, who: str, label: str, faulted: bool) -> bool:
@@ -714,6 +721,10 @@ class Run:
             w = want[k]
             if hdr[k] != w:
                 self.violation("header-field:spsdk-parser", k, f"{label}: SPSDK's parser reports {k} = {hdr[k]!r}, supplied {w!r}")
+        if "cert_block_rkth" in hdr and getattr(self, "rkth", None) is not None:
+            if hdr["cert_block_rkth"] != self.rkth.hex():
+                self.violation("header-field:spsdk-parser", "cert-block-rkth", f"{label}: the certificate block SPSDK's parser returns has the root key table hash {hdr['cert_block_rkth'][:16]}..., the table supplied hashes to {self.rkth.hex()[:16]}...")
+        self.clean_hdr = hdr
         return ok
 
     def check_faulty(self, data: bytes, label: str, kek=None, must_reject: bool = False) -> None:
@@ -737,6 +748,14 @@ class Run:
             self.probe("spsdk_parser_raises_" + type(exc).__name__)
         else:
             same = self.compare_content(scontent, "spsdk-parser", label, True)
+            clean_hdr = getattr(self, "clean_hdr", None)
+            if clean_hdr is not None and kek is None:
+                # header content counts as content: what the parser reports for the damaged file must be what it reported
+                # for the file as written
+                for kf in sorted(clean_hdr):
+                    if _hdr.get(kf) != clean_hdr[kf]:
+                        self.violation("different-content-under-fault:spsdk-parser", "header:" + kf, f"{label}: SPSDK's parser accepts the damaged file and reports {kf} = {str(_hdr.get(kf))[:40]!r}, the file as written has {str(clean_hdr[kf])[:40]!r}")
+                        same = False
             if same and must_reject:
                 self.probe("spsdk_parser_accepts_corrupted_file_with_equal_content")
                 self.obs["spsdk_accepts_corruption_equal_content"] = self.obs.get("spsdk_accepts_corruption_equal_content", 0) + 1
@@ -762,6 +781,7 @@ class Run:
         CLOCK.reset()
         CLOCK.advance(p.get("t0_us", 0))
         img = self.build()
+        self.built_img = img
         self.sig_len = 0
         if self.signed:
             self.sig_len = 512 if p["key"].get("bits") == 4096 else 256
